@@ -776,3 +776,155 @@ func ruleAddRun(c *Ctx) {
 		c.note("no add event is built in the cache package")
 	}
 }
+
+// ---------------------------------------------------------------------------
+// PAIR/access-inflight (C07, C06, C04, C19): the bookkeeping of the one access
+// request a subscription shares between its waiters, as a path rule over
+// loadAccess and the answer task it leads to (both twins, throttled and not):
+//   - a request is sent only on a path that has parked the caller and raised
+//     the in-flight flag (otherwise every waiter sends its own request);
+//   - the answer task lowers the in-flight flag and empties the waiting list
+//     before it hands the answer to the first waiter. A flag left raised parks
+//     every later check for ever (its request is never answered, a revoked
+//     resource is never re-validated); a list left in place is handed the next
+//     answer again (duplicate responses).
+
+func ruleAccessInflight(c *Ctx) {
+	p := c.P
+	fn := p.Fn("(*server.Subscription).loadAccess")
+	fSlot := p.Field("server.Subscription.accessCallbacks")
+	flags := p.flagFields("server.Subscription.flags")
+	kFlag := p.ConstInt("server.flagAccessCalled", -1)
+	var accessMs []*types.Func
+	for _, q := range []string{"server.ConnSubscriber.Access", "server.wsConn.Access"} {
+		if m := p.Method(q); m != nil {
+			accessMs = append(accessMs, m)
+		}
+	}
+	if fn == nil || fSlot == nil || len(flags) == 0 || len(accessMs) == 0 {
+		c.undecided("(*server.Subscription).loadAccess", "anchor", "-", "not found")
+		return
+	}
+	isFlag := func(f *types.Var) bool {
+		for _, x := range flags {
+			if x == f {
+				if len(flags) > 1 && !strings.Contains(strings.ToLower(f.Name()), "access") {
+					return false
+				}
+				return true
+			}
+		}
+		return false
+	}
+	c.inst(1)
+	sp := &Spec{}
+	sp.Classify = func(t *Tracer, fr *Frame, in ssa.Instruction) []Ev {
+		switch x := in.(type) {
+		case *ssa.Store:
+			fa, ok := x.Addr.(*ssa.FieldAddr)
+			if !ok {
+				return nil
+			}
+			f := fieldOfAddr(fa)
+			if f == fSlot {
+				if isNilConst(x.Val) {
+					return []Ev{{Kind: "slot-clear"}}
+				}
+				if isAppendOfSame(x, fSlot) {
+					return []Ev{{Kind: "park"}}
+				}
+				if sl, ok := x.Val.(*ssa.Slice); ok && sl.High != nil {
+					if k, isC := constInt(sl.High); isC && k == 0 {
+						return []Ev{{Kind: "slot-clear"}}
+					}
+				}
+				return []Ev{{Kind: "slot-store"}}
+			}
+			if isFlag(f) {
+				if b, ok := constBool(x.Val); ok {
+					if b {
+						return []Ev{{Kind: "flag-set"}}
+					}
+					return []Ev{{Kind: "flag-clear"}}
+				}
+				if bo, ok := x.Val.(*ssa.BinOp); ok {
+					k, isC := constInt(bo.Y)
+					if !isC {
+						k, isC = constInt(bo.X)
+					}
+					if isC && kFlag > 0 {
+						switch bo.Op {
+						case token.OR:
+							if k&kFlag != 0 {
+								return []Ev{{Kind: "flag-set"}}
+							}
+						case token.AND:
+							if k&kFlag == 0 {
+								return []Ev{{Kind: "flag-clear"}}
+							}
+						case token.AND_NOT:
+							if k&kFlag != 0 {
+								return []Ev{{Kind: "flag-clear"}}
+							}
+						}
+					}
+				}
+			}
+		case *ssa.IndexAddr:
+			if f, _ := fieldLoad(t.Resolve(fr, x.X).V); f == fSlot {
+				return []Ev{{Kind: "hand-over"}}
+			}
+		case *ssa.Index:
+			if f, _ := fieldLoad(t.Resolve(fr, x.X).V); f == fSlot {
+				return []Ev{{Kind: "hand-over"}}
+			}
+		}
+		if _, ok := isCallTo(in, accessMs...); ok {
+			return []Ev{{Kind: "send"}}
+		}
+		return nil
+	}
+	sp.EdgeLimit = 1
+	tr := runTrace(p, fn, sp)
+	bad := ""
+	nSend, nDrain := 0, 0
+	for _, path := range tr.Paths {
+		is := indexKind(path, "send")
+		if is >= 0 {
+			nSend++
+			if j := indexKind(path, "park"); j < 0 || j > is {
+				bad = "an access request is sent on a path that has not parked the caller's continuation: " + tr.FmtPath(path)
+			}
+			if j := indexKind(path, "flag-set"); j < 0 || j > is {
+				bad = "an access request is sent on a path that has not raised the in-flight flag: every further waiter sends a request of its own and is answered by whichever answer comes first: " + tr.FmtPath(path)
+			}
+		}
+		ih := indexKind(path, "hand-over")
+		if ih >= 0 {
+			nDrain++
+			if j := lastIndexKindBefore(path, "flag-clear", ih); j < 0 || j < is {
+				bad = "the answer is handed to the waiters with the in-flight flag still raised: the next check (after a reaccess, a token change or a reset) is parked behind a request that is no longer outstanding and never gets its answer: " + tr.FmtPath(path)
+			}
+			if j := lastIndexKindBefore(path, "slot-clear", ih); j < 0 || j < is {
+				bad = "the answer is handed to the waiters while they stay on the waiting list: the next answer is handed to them again (a request is answered twice): " + tr.FmtPath(path)
+			}
+		}
+	}
+	if nSend == 0 || nDrain == 0 {
+		bad = fmt.Sprintf("shape not recognised: %d paths send a request, %d hand an answer over", nSend, nDrain)
+	}
+	if tr.Trunc {
+		bad = "path budget exhausted"
+	}
+	c.check(bad == "", fnName(fn), "a shared access request: flag raised and caller parked before the request, flag lowered and list emptied before the answer is handed over", p.Pos(fn.Pos()),
+		fmt.Sprintf("%d paths: %d send a request, %d hand an answer to the waiters", len(tr.Paths), nSend, nDrain), bad)
+}
+
+func lastIndexKindBefore(path []Ev, k string, before int) int {
+	for i := before - 1; i >= 0; i-- {
+		if path[i].Kind == k {
+			return i
+		}
+	}
+	return -1
+}
